@@ -144,7 +144,7 @@ claim("C13", "proof",
       "exceptions, 2*10^5..10^6-node chains / fans / remap chains destroyed on a 256 KB stack.",
       "Trusted: Coq kernel, extraction, harness, the LIBFIVE_VERIF live-node counter; C++ lifetime rules map each Tree "
       "member / temporary to one model step (assumed); stack and allocator behaviour observed, not modelled.",
-      "Coq proof (counting invariant over arbitrary operation lists, loop invariant of the destructor) + differential refcount correspondence",
+      "Coq proof (counting invariant over arbitrary operation lists, loop invariant of the destructor) + differential refcount correspondence + AddressSanitizer runs",
       "DESIGN.md section 6, C13")
 HOOK_COMMITS.append("a30cf9a")
 
@@ -161,7 +161,7 @@ claim("C11", "proof",
       "to the uncancelled one; uncancelled renders always return a mesh.",
       "Trusted: Coq kernel (no axioms); the schedule-point hook (guarded, add-only); OS interleavings around the injection "
       "point are sampled, the theorems cover all orders; 'bounded time' = at most one loop body per worker + 20 s wall-clock check.",
-      "Coq proof (scheduling invariants over all task orders) + hook-based systematic fault injection",
+      "Coq proof (scheduling invariants over all task orders) + hook-based systematic fault injection (also under AddressSanitizer)",
       "DESIGN.md section 6, C11")
 
 claim("C12", "proof",
